@@ -10,7 +10,7 @@ well-formedness (Adsg.Table.WF) the driver evaluates.
 from .. import encmgr
 from . import c09
 
-RULE = ('seeded connector settings (1-2 sources x 1-3 targets over the C09 degree alphabet, exclusions, 1-3 existence '
+RULE = ('size sweep: 1 source with exactly one connection onto k optional targets (exactly k valid matrices) for every k = 2..40 (quick) / 2..130 (thorough); seeded connector settings (1-3 sources x 1-4 targets over the C09 degree alphabet, exclusions, 1-3 existence '
         'patterns incl. absent nodes and override lists) x every registered encoder factory x {default imputer, one '
         'alternative imputer}; per manager the full declared vector space when <= 250 vectors (else 250 samples) + 4 '
         'out-of-range / too-long vectors per pattern; a case is one (settings, encoder, imputer, pattern); non-trivial = '
@@ -25,7 +25,7 @@ LEANCHECK_MODULES = ['Adsg.Model.Enc', 'Adsg.Props.C10']
 
 
 def gen_case(rng):
-    ns, nt = rng.choice([(1, 1), (1, 2), (2, 1), (2, 2), (1, 3), (2, 2)])
+    ns, nt = rng.choice([(1, 1), (1, 2), (2, 1), (2, 2), (1, 3), (2, 2), (2, 3), (3, 2), (1, 4)])
     sspec = [(rng.choice(c09.ALPHA[:10]), rng.random() < .5) for _ in range(ns)]
     tspec = [(rng.choice(c09.ALPHA[:10]), rng.random() < .5) for _ in range(nt)]
     excluded = [(a, b) for a in range(ns) for b in range(nt) if rng.random() < .1]
@@ -64,22 +64,43 @@ def check_case(ctx, rep, sspec, tspec, excluded, exists, facs=None, imputers='sa
                 rep.count('rejected:' + fac['name'])
                 continue
             rep.count('mgr:' + fac['name'], 'imputer:' + imp_name)
-            encmgr.contract_check(ctx, rep, mgr, sspec, tspec, excluded, exists, pats, dict(inp, encoder=fac['name'], imputer=imp_name), cls)
+            # decoding through a lazy / pattern encoder costs up to a second per vector on larger settings
+            big = ns * nt > 6 and fac['kind'] in ('lazy', 'pattern')
+            encmgr.contract_check(ctx, rep, mgr, sspec, tspec, excluded, exists, pats, dict(inp, encoder=fac['name'], imputer=imp_name), cls,
+                                  limit=60 if big else 250)
             if ctx.out_of_time():
                 return
 
 
+def sweep_case(k):
+    """One source with exactly one connection onto k optional targets: exactly k valid matrices. Sweeping k exercises
+    every count-dependent branch of the enumerating encoders (digits of k-1 in every base) and the one-variable ones."""
+    return [(('list', [1]), False)], [(('list', [0, 1]), False)] * k, [], [{'src': {}, 'tgt': {}}]
+
+
 def run(ctx, rep):
-    n = ctx.pick(60, 3000)
+    # 1. size sweep (deterministic): number of valid matrices 2 .. K, enumerating / eager / lazy encoders
+    kmax = ctx.pick(36, 130)
+    small = [f for f in encmgr.factories() if f['kind'] == 'enum']
+    for k in range(2, kmax + 1):
+        if not ctx.mine(k):
+            continue
+        check_case(ctx, rep, *sweep_case(k), facs=small if k > 8 else None, imputers='default')
+        rep.count('stream:size-sweep')
+        if ctx.out_of_time():
+            break
+    # 2. seeded settings
+    n = ctx.pick(160, 3000)
     i = 0
     for i in range(n):
         case = gen_case(ctx.rng)
         if not ctx.mine(i):
             continue
         check_case(ctx, rep, *case)
+        rep.count('stream:seeded')
         if ctx.out_of_time():
             break
-    rep.notes.append('settings generated: %d' % (i + 1))
+    rep.notes.append('settings generated: %d; size sweep up to %d valid matrices' % (i + 1, kmax))
 
 
 def _from_inp(inp):
